@@ -182,7 +182,10 @@ def run(res, f, tier):
         res.violation(key, what, {"members": [nodes[i]["s"][:160] for i in c][:12], "size": len(c)})
         samples.append({"cycle": key, "size": len(c), "members": [nodes[i]["s"][:120] for i in c][:4]})
     res.floor("recursion cycles over the tree types", len(relevant), 8)
+    import control
+    controls = control.recursion_controls()
     res.coverage = {
+        "positive_controls": controls,
         "explanation": "strongly connected components of the monomorphic instance call graph (%d instances, %d edges: calls, fn references, closures/coroutines, "
                        "vtable methods of unsizing casts, drop glue; upstream MIR followed where rustc has it) — %d cyclic components, %d of them recurse over Expr/Value; "
                        "each must contain a depth test dominating every recursive call" % (n, len(m["edges"]), len(cycles), len(relevant)),
